@@ -513,17 +513,30 @@ def run_live_tls(case: Dict[str, Any]) -> Dict[str, Any]:
                 sk = _socket.create_connection(('127.0.0.1', port), timeout=20)
                 try:
                     t = ctx.wrap_socket(sk)
-                    t.sendall(b'GET /wa/tls HTTP/1.1\r\nHost: w.test\r\nX-Req-Id: tls\r\nConnection: close\r\n\r\n')
+                    # two requests on one TLS connection: the route registered for HTTPS answers both
+                    t.sendall(b'GET /was/tls1 HTTP/1.1\r\nHost: w.test\r\nX-Req-Id: tls1\r\n\r\n')
                     got = b''
                     try:
-                        while b'WA|tls|' not in got:
+                        while b'WA|tls1|' not in got:
                             d = t.recv(4096)
                             if not d:
                                 break
                             got += d
+                        if b'WA|tls1|' in got:
+                            t.sendall(b'GET /was/tls HTTP/1.1\r\nHost: w.test\r\nX-Req-Id: tls\r\nConnection: close\r\n\r\n')
+                            while b'WA|tls|' not in got:
+                                d = t.recv(4096)
+                                if not d:
+                                    break
+                                got += d
                     except (OSError, _socket.timeout):
                         pass
                     res['tls-get-%d' % k] = {'client': got, 'client_end': 'n/a'}
+                    if b'WA|tls1|' in got and b'WA|tls|' not in got:
+                        viol.append({'key': 'tls-front:tls|live-%s|follow-up-on-a-TLS-connection-not-answered-by-its-HTTPS-route' % mode,
+                                     'detail': {'client': got[-300:]}})
+                    elif b'WA|tls|' in got:
+                        obs['tls_front_followups_answered'] = obs.get('tls_front_followups_answered', 0) + 1
                     t.close()
                 except (ssl.SSLError, OSError) as e:
                     res['tls-get-%d' % k] = {'client': b'handshake-failed:' + type(e).__name__.encode(), 'client_end': 'n/a'}
@@ -588,7 +601,7 @@ def cases(tier: str, seed: int):
 def floors(tier: str) -> Dict[str, int]:
     return {'transcripts_equal': 150, 'live_transcripts_equal': 100, 'live_batches': 5, 'mode:step-remote': 20, 'mode:thread': 20,
             'mode:live-threaded': 1, 'mode:live-local': 1, 'mode:live-remote': 1, 'distinct:scenarios': 29,
-            'tls_front_transcripts_equal': 8, 'storm_batches': 4, 'storm_connections_served': 1500}
+            'tls_front_transcripts_equal': 8, 'storm_batches': 4, 'storm_connections_served': 1500, 'tls_front_followups_answered': 6}
 
 
 if __name__ == '__main__':
